@@ -337,8 +337,9 @@ def run(P, R, tier):
     # ------------------------------------------------------------------ C07.engine
     R.rule("C07.engine", "every member of class Phreeqc is re-initialised by clean_up(); init(); do_initialize() or exempt with a re-checked reason", minimum=550)
     must = set()
+    mw_strict = MW.MustWrite(P, extra_cover_methods=("SetAll",), resize_covers=False)   # a resize keeps the old elements: not a reset
     for q in ("Phreeqc::clean_up", "Phreeqc::init", "Phreeqc::do_initialize"):
-        m = mw.of_function(P.one(q)["key"])
+        m = mw_strict.of_function(P.one(q)["key"])
         R.info["must_" + q.split("::")[-1]] = len(m)
         must |= m
     et = load_table("c07_engine_exempt.json")
@@ -347,7 +348,7 @@ def run(P, R, tier):
 
     # ------------------------------------------------------------------ C07.wrapper
     R.rule("C07.wrapper", "every member of IPhreeqc/PHRQ_io is re-initialised by UnLoadDatabase() + test_db(), a documented survivor, or exempt", minimum=65)
-    mustw = set(mw.of_function(un["key"])) | set(mw.of_function(tdb["key"]))
+    mustw = set(mw_strict.of_function(un["key"])) | set(mw_strict.of_function(tdb["key"]))
     wt = load_table("c07_wrapper_exempt.json")
     R.table("c07_wrapper_exempt.json", wt)
     check_class(P, R, "C07.wrapper", "IPhreeqc", mustw, wt["fields"], mw)
